@@ -52,6 +52,15 @@ def _shape_sets():
         line = (" ".join([word] * 8))[:n].rstrip() if n != 32 else "abcdefghij abcdefghij abcdefghijk"
         out.append(build.simple_set([(5_000_000, 7_000_000, [line]), (9_000_000, 11_000_000, ["x" * 32]),
                                      (13_000_000, 15_000_000, ["one", "two", "three", "four"])]))
+    # cue texts that look like the syntax of one of the formats (a writer has to escape or keep them so
+    # that its own reader still takes the document), and empty / blank lines inside a cue
+    looks = [["{laughs}"], ["{}"], ["{y:i}"], ["{1}{2}"], ["[music]"], ["12"], ["1"], ["Final score", "", "12"],
+             ["Final score", " ", "12"], ["", "x"], ["x", ""], ["a|b"], ["|"], ["-->"], ["00:00:01,000 --> 00:00:02,000"],
+             ["00:01.000 --> 00:02.000"], ["NOTE this"], ["<i>"], ["</i>"], ["<b>bold</b>"], ["&amp;"], ["&"],
+             ["<SYNC Start=100>"], ["<p>"], ["]]>"], ["<!--"], ["{10}{20}x"], ["2", "3"]]
+    for k, lines in enumerate(looks):
+        out.append(build.simple_set([(5_000_000, 7_000_000, lines)]))
+        out.append(build.simple_set([(2_000_000, 4_000_000, ["first"]), (5_000_000, 7_000_000, lines), (9_000_000, 11_000_000, ["last"])]))
     return out
 
 
@@ -193,6 +202,9 @@ def signature(inp, rec, clause):
         sig["result"] = rec["result"] if rec["result"].startswith("raise") else "-"
     else:
         sig["writer"] = inp["writer"]
+        texts = ["".join(n[1] for n in c["nodes"] if n[0] == "t") for lg in inp["set"]["langs"] for c in lg["caps"]]
+        if texts and all(t and not t.replace("|", "").strip() for t in texts):
+            sig["all_text_is_line_separators"] = True
     return sig
 
 
